@@ -116,7 +116,9 @@ pub fn configs(tier: Tier) -> Vec<InCfg> {
     let mut v = Vec::new();
     for (ver, role) in crate::c05::roles() {
         // application states: idle / outstanding sends / two gated handlers / instead of the handshake / streaming an outbound publish
-        for state in 0..5 {
+        // (clients also: a lone SUBSCRIBE / a lone UNSUBSCRIBE outstanding, so that every ack type of the
+        // alphabet meets a request that is at the head of the in-flight queue)
+        for state in 0..7 {
             let mut ep = EpCfg::new(ver, role);
             ep.handler_auto = state != 2;
             ep.proto_auto = true;
@@ -126,6 +128,10 @@ pub fn configs(tier: Tier) -> Vec<InCfg> {
                     a.push(SK::Sub);
                 }
                 a
+            } else if state == 5 {
+                vec![SK::Sub]
+            } else if state == 6 {
+                vec![SK::Unsub]
             } else if state == 4 {
                 // an outbound publish is being streamed: header written, payload owed
                 vec![SK::Stream { qos: 1, size: 6, plan: 1 }]
@@ -133,7 +139,7 @@ pub fn configs(tier: Tier) -> Vec<InCfg> {
                 vec![]
             };
             let prologue = if state == 2 { vec![T::Pub { qos: 1, id: 7, len: 1, topic: 0, alias: 0 }, T::Pub { qos: 2, id: 8, len: 1, topic: 0, alias: 0 }] } else { vec![] };
-            if state == 3 && role == Role::Client {
+            if (state == 3 && role == Role::Client) || (state >= 5 && role == Role::Server) {
                 continue;
             }
             v.push(InCfg {
@@ -162,7 +168,7 @@ pub fn run(tier: Tier) -> i32 {
         ck.explore::<In>("inbound", i, c, &ecfg);
     }
     ck.rule = format!(
-        "per role and version: every sequence of up to {} well-formed packets over an alphabet of 26-30 templates (every packet type incl. those illegal in that direction, ids in use / free / unknown, PUBLISH complete / split / left incomplete / duplicate id / retain / wildcard topic / alias, second CONNECT, every ack type) against 5 application states (idle; outstanding QoS1+QoS2(+SUBSCRIBE) sends; two gated publish handlers; instead of the handshake; an outbound publish being streamed), handler completions interleaved; oracle: no panic, poll horizon never hit, at most one Stop, Stop reason is a protocol error unless a DISCONNECT (or client-side unknown PUBREL) is in the sequence, and a connection without Stop still answers a probe packet after the drain",
+        "per role and version: every sequence of up to {} well-formed packets over an alphabet of 26-30 templates (every packet type incl. those illegal in that direction, ids in use / free / unknown, PUBLISH complete / split / left incomplete / duplicate id / retain / wildcard topic / alias, second CONNECT, every ack type) against 5 (clients 6) application states (idle; outstanding QoS1+QoS2(+SUBSCRIBE) sends; two gated publish handlers; instead of the handshake (servers); an outbound publish being streamed; clients: a lone SUBSCRIBE, a lone UNSUBSCRIBE outstanding), handler completions interleaved; oracle: no panic, poll horizon never hit, at most one Stop, Stop reason is a protocol error unless a DISCONNECT (or client-side unknown PUBREL) is in the sequence, and a connection without Stop still answers a probe packet after the drain",
         if tier == Tier::Quick { 3 } else { 4 }
     );
     ck.assumptions = vec!["FIFO task order of ntex-rt; nondeterminism = timing of environment events (DESIGN 2.4)".into()];
